@@ -143,8 +143,12 @@ def shrink(exe, engines, fail, workdir, budget=120):
     return P
 
 
-def run_programs(ck, exe, engines, nprogs, opts=None, argsets=None, per_batch=12, workers=14, name="m"):
-    """generate nprogs programs from ck.rng, run in parallel batches.  Returns (failures, nevals, stats)"""
+def run_programs(ck, exe, engines, nprogs, opts=None, argsets=None, per_batch=12, workers=14, name="m", budget_s=None):
+    """generate nprogs programs from ck.rng, run in parallel batches.  Returns (failures, nevals, stats).
+    budget_s: wall-clock budget; batches not started when it is used up are skipped and counted in
+    stats["skipped_batches"] (a broken tree can make generated code hang until the per-call alarm)"""
+    import time
+    t_end = None if budget_s is None else time.time() + budget_s
     argsets = argsets or mirgen.ARGSETS
     work = os.path.join(os.path.dirname(os.path.dirname(os.path.abspath(__file__))), ".cache", f"prog_{ck.pid}_{os.getpid()}")
     os.makedirs(work, exist_ok=True)
@@ -163,9 +167,17 @@ def run_programs(ck, exe, engines, nprogs, opts=None, argsets=None, per_batch=12
     fails = []
     nev = 0
     with ThreadPoolExecutor(max_workers=workers) as ex:
-        futs = [ex.submit(check_batch, exe, engines, b, argsets, work, f"b{i}") for i, b in enumerate(batches)]
+        def job(b, i):
+            if t_end is not None and time.time() > t_end:
+                return None
+            return check_batch(exe, engines, b, argsets, work, f"b{i}")
+        futs = [ex.submit(job, b, i) for i, b in enumerate(batches)]
         for f in futs:
-            fl, n = f.result()
+            r = f.result()
+            if r is None:
+                stats["skipped_batches"] = stats.get("skipped_batches", 0) + 1
+                continue
+            fl, n = r
             fails += fl
             nev += n
     return fails, nev, stats, work
